@@ -57,7 +57,7 @@ where
             T::from_buffer(buf)
         } else if let Entry::Occupied(mut entry) = self.queue.entry(id) {
             let queue = entry.get_mut();
-            if queue.add_fragment(seq, buf) {
+            if queue.add_fragment(total, seq, buf) {
                 let buf = queue.assemble();
                 // tracing::trace!("reassembled {} bytes", buf.len());
                 entry.remove_entry();
@@ -154,7 +154,11 @@ impl ReassembleQueue {
         fragments[this] = buf;
         Self { bitmap, fragments }
     }
-    fn add_fragment(&mut self, seq: u8, buf: Bytes) -> bool {
+    fn add_fragment(&mut self, total: u8, seq: u8, buf: Bytes) -> bool {
+        if total as usize != self.fragments.len() {
+            // belongs to a different frame that happens to use the same id
+            return false;
+        }
         let this = seq as usize;
         if self.bitmap & (1 << this) == 0 {
             self.bitmap |= 1 << this;
